@@ -256,33 +256,60 @@ func runT2(p *an.Prog, r *an.Result) {
 		return strings.HasPrefix(n, "reflect.") || strings.HasPrefix(n, "(reflect.Value).") || strings.HasPrefix(n, "(reflect.Type).")
 	}
 	okAll := true
-	an.EachCall(wo, func(ci ssa.CallInstruction) {
-		n := an.CallName(ci.Common())
-		r.Counts["writeObject callees"]++
-		if !allowed(n) {
-			okAll = false
-			r.Bad(an.FuncName(wo), "calls "+nonEmpty(n, "a function value"), ci.Pos(), fmt.Sprintf("writeObject must print values as they are; %s can rewrite, escape, trim or truncate the text", nonEmpty(n, "this call")))
+	// writeObject and the helpers of its package that it hands the writer to
+	unit := map[*ssa.Function]bool{wo: true}
+	for changed := true; changed; {
+		changed = false
+		for f := range unit {
+			an.EachCall(f, func(ci ssa.CallInstruction) {
+				callee := ci.Common().StaticCallee()
+				if callee == nil || unit[callee] || callee.Blocks == nil || callee.Pkg != wo.Pkg {
+					return
+				}
+				for _, par := range callee.Params {
+					if isWriterType(par.Type()) {
+						unit[callee] = true
+						changed = true
+					}
+				}
+			})
 		}
-		// what is written is the formatted value itself
-		if n == "io.WriteString" {
-			arg := ci.Common().Args[1]
-			if c := an.CallOf(arg); c == nil || (an.CallName(c) != "fmt.Sprint" && an.CallName(c) != "(time.Time).Format") {
-				okAll = false
-				r.Bad(an.FuncName(wo), "writes something other than the formatted value", ci.Pos(), "the string written must be the direct result of fmt.Sprint / Format")
+	}
+	step := stepIP(p)
+	for wf := range unit {
+		wf := wf
+		an.EachCall(wf, func(ci ssa.CallInstruction) {
+			n := an.CallName(ci.Common())
+			r.Counts["writeObject callees"]++
+			if callee := ci.Common().StaticCallee(); callee != nil && unit[callee] {
+				return
 			}
-		}
-		if n == "fmt.Sprint" {
-			// exactly the value, nothing prepended or appended
-			if sl, ok := ci.Common().Args[0].(*ssa.Slice); ok {
-				if al, ok := sl.X.(*ssa.Alloc); ok {
-					if at, ok := al.Type().Underlying().(*types.Pointer).Elem().Underlying().(*types.Array); ok && at.Len() != 1 {
+			if !allowed(n) {
+				okAll = false
+				r.Bad(an.FuncName(wf), "calls "+nonEmpty(n, "a function value"), ci.Pos(), fmt.Sprintf("writeObject must print values as they are; %s can rewrite, escape, trim or truncate the text", nonEmpty(n, "this call")))
+			}
+			// what is written is the formatted value itself
+			if n == "io.WriteString" {
+				for _, o := range an.Origins(ci.Common().Args[1], step) {
+					if c := an.CallOf(o); c == nil || (an.CallName(c) != "fmt.Sprint" && an.CallName(c) != "(time.Time).Format") {
 						okAll = false
-						r.Bad(an.FuncName(wo), "fmt.Sprint of more than the value", ci.Pos(), "only the value itself may be formatted")
+						r.Bad(an.FuncName(wf), "writes something other than the formatted value", ci.Pos(), "the string written must be the direct result of fmt.Sprint / Format")
 					}
 				}
 			}
-		}
-	})
+			if n == "fmt.Sprint" {
+				// exactly the value, nothing prepended or appended
+				if sl, ok := ci.Common().Args[0].(*ssa.Slice); ok {
+					if al, ok := sl.X.(*ssa.Alloc); ok {
+						if at, ok := al.Type().Underlying().(*types.Pointer).Elem().Underlying().(*types.Array); ok && at.Len() != 1 {
+							okAll = false
+							r.Bad(an.FuncName(wf), "fmt.Sprint of more than the value", ci.Pos(), "only the value itself may be formatted")
+						}
+					}
+				}
+			}
+		})
+	}
 	if okAll {
 		r.OK(an.FuncName(wo), "callees are ToLiquid, WriteString/Write, Sprint, Format, reflect accessors and itself", an.FuncPos(wo), "nothing that rewrites text")
 	}
@@ -530,12 +557,12 @@ func runT4(p *an.Prog, r *an.Result) {
 			}
 			r.Counts["trim token sites"]++
 			switch {
-			case an.FuncName(fn) != "parser.Scan":
+			case an.FuncName(an.Outermost(fn)) != "parser.Scan":
 				r.Bad(an.FuncName(fn), "trim token built outside Scan", st.Pos(), "only the scanner may create trim tokens")
 			case !hyphenGuard(st):
-				r.Bad(an.FuncName(fn), "trim token not under a '-' test", st.Pos(), "a trim token must be emitted only when the byte next to the delimiter is a hyphen")
+				r.Bad(an.FuncName(an.Outermost(fn)), "trim token not under a '-' test", st.Pos(), "a trim token must be emitted only when the byte next to the delimiter is a hyphen")
 			default:
-				r.OK(an.FuncName(fn), "trim token under a '-' test", st.Pos(), "control-dependent on source[i] == '-'")
+				r.OK(an.FuncName(an.Outermost(fn)), "trim token under a '-' test", st.Pos(), "control-dependent on source[i] == '-'")
 			}
 		}
 	}
@@ -575,7 +602,7 @@ func runT4(p *an.Prog, r *an.Result) {
 				}
 			case isNamedIn(owner, "render", "TrimNode"):
 				r.Counts["trim node sites"]++
-				if an.FuncName(fn) == "(render.Config).compileNode" && strings.HasSuffix(describe(p, st.Val), ".TrimDirection") {
+				if strings.HasSuffix(an.FuncName(fn), "compileNode") && strings.HasSuffix(describe(p, st.Val), ".TrimDirection") {
 					r.OK(an.FuncName(fn), "TrimNode direction copied from the ASTTrim", st.Pos(), "")
 				} else {
 					r.Bad(an.FuncName(fn), "TrimNode direction not copied from the ASTTrim", st.Pos(), "compileNode must keep the direction")
@@ -637,7 +664,7 @@ func runT4(p *an.Prog, r *an.Result) {
 			}
 		})
 	}
-	r.Floor("trim token sites", 4)
+	r.Floor("trim token sites", 2)
 	r.Floor("trim node sites", 3)
 	r.Floor("trim calls", 2)
 	r.Floor("trim flag writes", 2)
@@ -843,11 +870,13 @@ func runT6(p *an.Prog, r *an.Result) {
 	}
 	format, pat := "", ""
 	var holes []ssa.Value
+	var holeEnvs []*symEnv
 	for _, pc := range pieces {
 		if pc.hole != nil {
 			format += "%s"
 			pat += "Z"
 			holes = append(holes, pc.hole)
+			holeEnvs = append(holeEnvs, pc.env)
 		} else {
 			format += pc.text
 			pat += pc.text
@@ -907,18 +936,21 @@ func runT6(p *an.Prog, r *an.Result) {
 		}
 		var quoted []int64
 		var other []ssa.Value
+		var otherEnv *symEnv
 		for k := int64(0); k < int64(len(args)); k++ {
 			v := args[k]
 			if mi, ok := v.(*ssa.MakeInterface); ok {
 				v = mi.X
 			}
 			if qc := an.CallOf(v); qc != nil && an.CallName(qc) == "regexp.QuoteMeta" {
-				if d, ok := delimIndexOf(qc.Args[0]); ok {
+				arg, _ := resolveEnv(qc.Args[0], holeEnvs[k])
+				if d, ok := delimIndexOf(arg); ok {
 					quoted = append(quoted, d)
 					continue
 				}
 			}
 			other = append(other, v)
+			otherEnv = holeEnvs[k]
 		}
 		inOrder := len(quoted) == 4
 		for i, d := range quoted {
@@ -938,10 +970,14 @@ func runT6(p *an.Prog, r *an.Result) {
 			seen := map[ssa.Value]bool{}
 			var visit func(v ssa.Value, depth int)
 			visit = func(v ssa.Value, depth int) {
-				if v == nil || seen[v] || depth > 12 {
+				if v == nil || seen[v] || depth > 30 {
 					return
 				}
 				seen[v] = true
+				if rv, _ := resolveEnv(v, otherEnv); rv != v {
+					visit(rv, depth+1)
+					return
+				}
 				if d, ok := delimIndexOf(v); ok && len(quoted) == 4 && d == quoted[3] {
 					exOK = true
 				}
@@ -1440,11 +1476,23 @@ func runT9(p *an.Prog, r *an.Result) {
 		return
 	}
 	bw := callsNamed(w, "(*bytes.Buffer).Write")
-	if len(bw) != 1 {
-		r.Bad(an.FuncName(w), "buffer writes", an.FuncPos(w), fmt.Sprintf("expected one buf.Write, found %d", len(bw)))
+	if len(bw) == 0 {
+		r.Bad(an.FuncName(w), "buffer writes", an.FuncPos(w), "no buf.Write found: Write must append its argument to the buffer")
 	} else {
 		good := true
-		for _, o := range an.Origins(bw[0].Call.Args[1], an.StepValue) {
+		var origins []ssa.Value
+		for _, one := range bw {
+			origins = append(origins, an.Origins(one.Call.Args[1], an.StepValue)...)
+		}
+		dominatedByWrite := func(in ssa.Instruction) bool {
+			for _, one := range bw {
+				if instrDominates(one, in) {
+					return true
+				}
+			}
+			return false
+		}
+		for _, o := range origins {
 			switch x := o.(type) {
 			case *ssa.Parameter:
 				if x != w.Params[1] {
@@ -1476,7 +1524,7 @@ func runT9(p *an.Prog, r *an.Result) {
 				continue
 			}
 			res := resultsOf(ret)
-			if instrDominates(bw[0], ret) {
+			if dominatedByWrite(ret) {
 				continue
 			}
 			// an early return is an error return: its error result has been found non-nil
@@ -1522,8 +1570,11 @@ func runT9(p *an.Prog, r *an.Result) {
 					return false
 				}
 				seen[b] = true
-				if b == bw[0].Block() {
-					return true
+				for _, one := range bw {
+					if b == one.Block() {
+						// a write in the very block that clears the flag first is fine
+						return true
+					}
 				}
 				for _, s := range b.Succs {
 					if reach(s) {
@@ -1569,17 +1620,20 @@ func runT10(p *an.Prog, r *an.Result) {
 	type site struct {
 		typ int64
 		st  ssa.Instruction // where the token is appended to the token list
+		via ssa.Instruction // the call in Scan through which the token reaches a helper closure that appends it
 	}
 	var sites []site
-	for _, st := range tokenFieldStores(p, fn) {
-		if fieldName(st.Addr.(*ssa.FieldAddr)) == "Type" {
-			if c, ok := an.ConstInt(st.Val); ok {
-				em := tokenEmission(st)
-				if em == nil {
-					r.Bad(name, "token built but its append not found", st.Pos(), "the order rule follows each token literal to the append that emits it")
-					continue
+	for _, uf := range unitOf(fn) {
+		for _, st := range tokenFieldStores(p, uf) {
+			if fieldName(st.Addr.(*ssa.FieldAddr)) == "Type" {
+				if c, ok := an.ConstInt(st.Val); ok {
+					em, via := tokenEmissionVia(st, fn)
+					if em == nil {
+						r.Bad(name, "token built but its append not found", st.Pos(), "the order rule follows each token literal to the append that emits it")
+						continue
+					}
+					sites = append(sites, site{c, em, via})
 				}
-				sites = append(sites, site{c, em})
 			}
 		}
 	}
@@ -1588,24 +1642,37 @@ func runT10(p *an.Prog, r *an.Result) {
 		what string
 	}{{obj, "object"}, {tag, "tag"}} {
 		var ms ssa.Instruction
+		var mvia ssa.Instruction
 		for _, s := range sites {
 			if s.typ == main.typ {
-				ms = s.st
+				ms, mvia = s.st, s.via
 			}
 		}
 		if ms == nil {
 			r.Bad(name, main.what+" token not emitted", an.FuncPos(fn), "anchor not resolved")
 			continue
 		}
-		// the arm: blocks between the arm entry and the join; trim sites in the same arm are those
-		// that share the arm's dominating delimiter comparison
+		// the arm: by the dominating test of the place in Scan where the token is emitted (or handed to
+		// the closure that emits it); the trim tokens that belong to it are those of the same arm, or -
+		// when a closure emits - those the same closure appends
 		armGuard := func(in ssa.Instruction) *patAlt {
 			return tp.armAt(in, t10DelimIndex)
 		}
-		ag := armGuard(ms)
+		at := ms
+		if mvia != nil {
+			at = mvia
+		}
+		ag := armGuard(at)
 		var lefts, rights []ssa.Instruction
 		for _, s := range sites {
-			if armGuard(s.st) != ag || ag == nil {
+			if mvia != nil {
+				if s.st.Parent() != ms.Parent() {
+					continue
+				}
+			} else if s.via != nil || armGuard(s.st) != ag {
+				continue
+			}
+			if ag == nil {
 				continue
 			}
 			if s.typ == tl {
@@ -1696,6 +1763,89 @@ func tokenEmission(st *ssa.Store) ssa.Instruction {
 	return out
 }
 
+// tokenEmissionVia is tokenEmission that also follows the token as an argument into a closure of
+// scan that appends its parameter; via is that call.
+func tokenEmissionVia(st *ssa.Store, scan *ssa.Function) (ssa.Instruction, ssa.Instruction) {
+	if em := tokenEmission(st); em != nil {
+		return em, nil
+	}
+	fa, ok := st.Addr.(*ssa.FieldAddr)
+	if !ok {
+		return nil, nil
+	}
+	var em, via ssa.Instruction
+	seen := map[ssa.Value]bool{}
+	var walk func(v ssa.Value, depth int)
+	walk = func(v ssa.Value, depth int) {
+		if v == nil || seen[v] || depth > 8 || em != nil || v.Referrers() == nil {
+			return
+		}
+		seen[v] = true
+		for _, u := range *v.Referrers() {
+			switch x := u.(type) {
+			case *ssa.UnOp:
+				if x.Op == token.MUL {
+					walk(x, depth+1)
+				}
+			case *ssa.Call:
+				callee := x.Call.StaticCallee()
+				if callee == nil || an.Outermost(callee) != scan {
+					continue
+				}
+				for i, a := range x.Call.Args {
+					if a == v && i < len(callee.Params) {
+						// the parameter, appended inside the closure (possibly through its spilled copy)
+						if e := paramAppend(callee.Params[i]); e != nil {
+							em, via = e, x
+							return
+						}
+					}
+				}
+			}
+		}
+	}
+	walk(fa.X, 0)
+	return em, via
+}
+
+// paramAppend: the append call that puts the struct parameter (or its spilled copy) on a list.
+func paramAppend(par *ssa.Parameter) ssa.Instruction {
+	var out ssa.Instruction
+	seen := map[ssa.Value]bool{}
+	var walk func(v ssa.Value, depth int)
+	walk = func(v ssa.Value, depth int) {
+		if v == nil || seen[v] || depth > 8 || out != nil || v.Referrers() == nil {
+			return
+		}
+		seen[v] = true
+		for _, u := range *v.Referrers() {
+			switch x := u.(type) {
+			case *ssa.UnOp:
+				if x.Op == token.MUL {
+					walk(x, depth+1)
+				}
+			case *ssa.Store:
+				if x.Val == v {
+					if ia, ok := x.Addr.(*ssa.IndexAddr); ok {
+						walk(ia.X, depth+1)
+					} else if al, ok := x.Addr.(*ssa.Alloc); ok {
+						walk(al, depth+1)
+					}
+				}
+			case *ssa.Slice:
+				walk(x, depth+1)
+			case *ssa.Call:
+				if b, ok := x.Call.Value.(*ssa.Builtin); ok && b.Name() == "append" && len(x.Call.Args) == 2 && x.Call.Args[1] == v {
+					out = x
+					return
+				}
+			}
+		}
+	}
+	walk(par, 0)
+	return out
+}
+
 func instrsOf(fn *ssa.Function) []ssa.Instruction {
 	var out []ssa.Instruction
 	an.EachInstr(fn, func(in ssa.Instruction) { out = append(out, in) })
@@ -1706,11 +1856,37 @@ func instrsOf(fn *ssa.Function) []ssa.Instruction {
 type patPiece struct {
 	text string
 	hole ssa.Value
+	env  *symEnv // where the hole lies inside a helper: what the helper's parameters stand for
+}
+
+// symEnv binds the parameters of a helper function that is being read through to the arguments of
+// the call; up is the environment of the caller.
+type symEnv struct {
+	bind map[*ssa.Parameter]ssa.Value
+	up   *symEnv
+}
+
+// resolveEnv replaces a parameter of a helper by the caller's argument (repeatedly).
+func resolveEnv(v ssa.Value, env *symEnv) (ssa.Value, *symEnv) {
+	for env != nil {
+		par, ok := v.(*ssa.Parameter)
+		if !ok {
+			break
+		}
+		b, ok := env.bind[par]
+		if !ok {
+			break
+		}
+		v, env = b, env.up
+	}
+	return v, env
 }
 
 // symbolicString reads v as a concatenation of constants and computed pieces: string constants,
 // +, and fmt.Sprintf with a constant format (each verb becomes the corresponding argument).
-func symbolicString(v ssa.Value, depth int) ([]patPiece, bool) {
+func symbolicString(v ssa.Value, depth int) ([]patPiece, bool) { return symStr(v, nil, depth) }
+
+func symStr(v ssa.Value, env *symEnv, depth int) ([]patPiece, bool) {
 	if depth > 12 {
 		return nil, false
 	}
@@ -1721,13 +1897,13 @@ func symbolicString(v ssa.Value, depth int) ([]patPiece, bool) {
 		}
 		return nil, false
 	case *ssa.MakeInterface:
-		return symbolicString(x.X, depth+1)
+		return symStr(x.X, env, depth+1)
 	case *ssa.BinOp:
 		if x.Op != token.ADD {
 			return nil, false
 		}
-		l, ok1 := symbolicString(x.X, depth+1)
-		r, ok2 := symbolicString(x.Y, depth+1)
+		l, ok1 := symStr(x.X, env, depth+1)
+		r, ok2 := symStr(x.Y, env, depth+1)
 		if !ok1 || !ok2 {
 			return nil, false
 		}
@@ -1772,10 +1948,10 @@ func symbolicString(v ssa.Value, depth int) ([]patPiece, bool) {
 					if mi, isMI := a.(*ssa.MakeInterface); isMI {
 						a = mi.X
 					}
-					if sub, ok := symbolicString(a, depth+1); ok && len(sub) == 1 && sub[0].hole == nil {
+					if sub, ok := symStr(a, env, depth+1); ok && len(sub) == 1 && sub[0].hole == nil {
 						out = append(out, sub[0])
 					} else {
-						out = append(out, patPiece{hole: a})
+						out = append(out, patPiece{hole: a, env: env})
 					}
 					k++
 				default:
@@ -1785,9 +1961,36 @@ func symbolicString(v ssa.Value, depth int) ([]patPiece, bool) {
 			}
 			return out, true
 		}
-		return []patPiece{{hole: x}}, true
+		// a module helper that returns the text: read its one result with its parameters bound
+		if callee := x.Call.StaticCallee(); callee != nil && callee.Blocks != nil && callee.Pkg != nil && an.IsModulePkg(callee.Pkg.Pkg) {
+			if b, ok := x.Type().Underlying().(*types.Basic); ok && b.Info()&types.IsString != 0 {
+				var rets []*ssa.Return
+				an.EachInstr(callee, func(in ssa.Instruction) {
+					if ret, ok := in.(*ssa.Return); ok {
+						rets = append(rets, ret)
+					}
+				})
+				if len(rets) == 1 {
+					ne := &symEnv{bind: map[*ssa.Parameter]ssa.Value{}, up: env}
+					for i, par := range callee.Params {
+						if i < len(x.Call.Args) {
+							ne.bind[par] = x.Call.Args[i]
+						}
+					}
+					if sub, ok := symStr(resultsOf(rets[0])[0], ne, depth+1); ok {
+						return sub, true
+					}
+				}
+			}
+		}
+		return []patPiece{{hole: x, env: env}}, true
+	case *ssa.Parameter:
+		if rv, renv := resolveEnv(x, env); rv != ssa.Value(x) {
+			return symStr(rv, renv, depth+1)
+		}
+		return []patPiece{{hole: v, env: env}}, true
 	case *ssa.UnOp, *ssa.Phi, *ssa.Extract:
-		return []patPiece{{hole: v}}, true
+		return []patPiece{{hole: v, env: env}}, true
 	}
 	return nil, false
 }
